@@ -26,7 +26,9 @@ UNMEDIATED = ('load_object', 'clone_object', 'find_object')
 LEGAL = ['d/f1', 'd/f2', 'd', 'd/sub/f3', 'f0', 'svd/o1', 'd/new', 'vobj', 'pl1']
 HOSTILE = ['..', '/..', '../x', 'd/../..', 'd/../../etc/passwd', '//etc/passwd', '/etc/passwd', '/./d/f1', 'd/.', 'd/..', 'd/f1/..', '.', '', '/', 'd//f1',
            'd/a#b', '/tmp/nsim-x', '....//x', 'd/...', '.../x', 'd/./f1', './d/f1', '/d/f1', 'd/f1/', '/../d/f1', '..d/f1', 'd/..f', '~/x',
-           'd/' + 'a' * 300, '../' * 12 + 'etc/hostname', '/proc/self/environ']
+           'd/' + 'a' * 300, '../' * 12 + 'etc/hostname', '/proc/self/environ',
+           # names longer than any fixed buffer in the file efuns ("@n@" is expanded to n letters inside the mudlib)
+           '/@3000@/', 'd/@1500@/', '@1300@', 'd/@260@/f', '/@1279@/', '/@1280@/', '/@1281@/', 'd/@1270@//']
 
 
 def gen(rng, tier, i):
@@ -180,6 +182,7 @@ def check(plan, res):
                 ans = w[3][4:] if len(w) > 3 else '1'
                 if ans in ('0', 'E'): denials += 1; continue
                 ap = bytes.fromhex(ans[2:]).decode('latin-1') if ans.startswith('S:') else asked_path
+                ap = re.sub(r'@(\d+)@', lambda m_: 'a' * int(m_.group(1)), ap)     # the mudlib expands "@n@" to n letters
                 if ap.startswith('/'): ap = ap[1:]
                 if ap == '': ap = '.'
                 approvals.append(_norm(ap))
